@@ -338,6 +338,8 @@ def build(p):
 
         if shutdown:
             E.spawn("sh", shutter)
+            for extra in range(1, shutdown.get("threads", 1)):
+                E.spawn("sh%d" % (extra + 1), shutter)     # several threads call shutdown() at the same instant
         if p.get("probe") is not None:
             def prober():
                 E.vsleep(p["probe"])
